@@ -444,7 +444,9 @@ class Guard(Rule):
         # last declared first, so that destructors come out in reverse order of declaration
         for idx in range(len(ms) - 1, -1, -1):
             m = list(re.finditer(self.decl, text, re.S))[idx]
-            text = _lower_one_guard(text, m, m.expand(self.ctor), m.expand(self.dtor))
+            ctor = self.ctor(m) if callable(self.ctor) else m.expand(self.ctor)
+            dtor = self.dtor(m) if callable(self.dtor) else m.expand(self.dtor)
+            text = _lower_one_guard(text, m, ctor, dtor)
         return text
 
 
